@@ -139,6 +139,11 @@ MISSED_FIRST = {
  "C20i-1": "needs an svg root whose width/height differ from the configured size; C20's documents now carry no, equal or other width/height attributes",
  "C05i-1": "needs a DecodeOption written by the caller that replaces the viewBox; C14's caller-written options now sometimes do, and the viewBox given to Reset must be the Metadata's after all options",
  "C02i-1": "needs one path holding a single run of millions of H/h/V/v operations decoded into an Encoder (quadratic copying); C02's huge inputs now include such runs, decoded into an Encoder and a Renderer under the per-case CPU limit",
+ "C05j-1": "needs the rasterizer behind raster.RasterizerLogger and a relative close-and-move (the Renderer asks its rasterizer for the pen); an eighth of C05's runs now put that wrapper between the Renderer and the recording rasterizer (added while the round-10 deliveries were coming in)",
+ "C12j-1": "needs the exported names ivg.Min/Mid/Max instead of numbers; C12 now passes the named constants one time in six and requires them to denote 0, 0.5 and 1",
+ "C20j-3": "needs an opacity of exactly 0 (the converter generator avoided it); 0 is now one of the opacities (added while the round-10 deliveries were coming in)",
+ "C11j-1": "needs the disivg command writing with -o into a file that already holds a longer listing; every other run of C11's binary sub-monitor now writes to one and the same file",
+ "C18j-1": "needs mdicons.ParseDir on two icon trees with the same names and different PNG sizes; C18's ParseFile pipeline now also converts two such trees and compares listing, file count and PNG totals with what the trees were written with (added while the round-10 deliveries were coming in)",
  "C20-2": "SetTransform was called once with literals; C20 now configures the generator twice from a caller-held slice and checks that the slice is unchanged",
 }
 
